@@ -27,6 +27,13 @@ use serde_json::{json, Value};
 
 pub const VERIF_ROOT: &str = "/verif";
 
+/// Debug aid (never set by the registered commands): `VERIF_ONLY_LEG=<name>` runs just that leg, used to
+/// measure the sensitivity of one leg against a seeded change.
+fn leg_skipped(leg: &str) -> bool {
+	std::env::var("VERIF_ONLY_LEG").map_or(false, |l| l != leg)
+}
+
+
 #[derive(Clone, Copy, Debug, PartialEq, Eq)]
 pub enum Tier {
 	Quick,
@@ -424,6 +431,9 @@ impl Engine {
 	) where
 		C: Debug + Clone + Serialize + DeserializeOwned + Send,
 	{
+		if leg_skipped(leg) {
+			return;
+		}
 		if let Some((rleg, rcase)) = &self.replay {
 			if rleg != leg {
 				return;
@@ -589,6 +599,9 @@ impl Engine {
 		C: Debug + Clone + Serialize + DeserializeOwned + Send + Sync,
 		I: IntoIterator<Item = C>,
 	{
+		if leg_skipped(leg) {
+			return;
+		}
 		if let Some((rleg, rcase)) = &self.replay {
 			if rleg != leg {
 				return;
@@ -643,6 +656,9 @@ impl Engine {
 			return;
 		}
 		let leg = format!("fuzz:{target}");
+		if leg_skipped(&leg) {
+			return;
+		}
 		self.note_leg(&leg, rule);
 		let out = Path::new(VERIF_ROOT).join("out");
 		let corpus = out.join("fuzz-corpus").join(format!("{target}-{}", std::process::id()));
